@@ -196,8 +196,14 @@ theorem Frame.register : Sat Frame register := by
   unfold Flow.register; fw [Frame.saveAccount]
 theorem Frame.updateContacts : Sat Frame updateContacts := by
   unfold Flow.updateContacts; fw [Frame.saveAccount, Frame.register]
-theorem Frame.updateKey : Sat Frame updateKey := by
-  unfold Flow.updateKey; fw [Frame.saveAccount, Frame.register]
+theorem Frame.checkNewKey : Sat Frame checkNewKey := by
+  unfold Flow.checkNewKey; fw [Frame.saveAccount]
+theorem Frame.keyChangeStep (ca : Bool) : Sat Frame (keyChangeStep ca) := by
+  unfold Flow.keyChangeStep; fw [Frame.saveAccount, Frame.register, Frame.checkNewKey]
+theorem Frame.keyChangeChecked : Sat Frame keyChangeChecked := by
+  unfold Flow.keyChangeChecked; fw [Frame.keyChangeStep, Frame.checkNewKey]
+theorem Frame.updateKey (v : Variant) : Sat Frame (updateKey v) := by
+  unfold Flow.updateKey; fw [Frame.keyChangeStep, Frame.keyChangeChecked]
 theorem Frame.synchronize (v : Variant) : Sat Frame (synchronize v) := by
   unfold Flow.synchronize; fw [Frame.updateContacts, Frame.updateKey, Frame.register]
 theorem Frame.newOrder : Sat Frame newOrder := by
@@ -383,8 +389,14 @@ theorem APrep.register : Sat (TR (AllEv APrep)) register := by
   unfold Flow.register; pw [APrep.saveAccount]
 theorem APrep.updateContacts : Sat (TR (AllEv APrep)) updateContacts := by
   unfold Flow.updateContacts; pw [APrep.saveAccount, APrep.register]
-theorem APrep.updateKey : Sat (TR (AllEv APrep)) updateKey := by
-  unfold Flow.updateKey; pw [APrep.saveAccount, APrep.register]
+theorem APrep.checkNewKey : Sat (TR (AllEv APrep)) checkNewKey := by
+  unfold Flow.checkNewKey; pw [APrep.saveAccount]
+theorem APrep.keyChangeStep (ca : Bool) : Sat (TR (AllEv APrep)) (keyChangeStep ca) := by
+  unfold Flow.keyChangeStep; pw [APrep.saveAccount, APrep.register, APrep.checkNewKey]
+theorem APrep.keyChangeChecked : Sat (TR (AllEv APrep)) keyChangeChecked := by
+  unfold Flow.keyChangeChecked; pw [APrep.keyChangeStep, APrep.checkNewKey]
+theorem APrep.updateKey (v : Variant) : Sat (TR (AllEv APrep)) (updateKey v) := by
+  unfold Flow.updateKey; pw [APrep.keyChangeStep, APrep.keyChangeChecked]
 theorem APrep.synchronize (v : Variant) : Sat (TR (AllEv APrep)) (synchronize v) := by
   unfold Flow.synchronize; pw [APrep.updateContacts, APrep.updateKey, APrep.register]
 theorem APrep.newOrder : Sat (TR (AllEv APrep)) newOrder := by
@@ -498,6 +510,7 @@ theorem downloadCert_val {w w' : World} {cb : CertBody} (h : downloadCert w = (.
       exact ⟨body, rest, rfl, h.1.symm, h.2.symm⟩
     | acmeErr ty => simp [Flow.failAt] at h
     | otherErr => simp [Flow.failAt] at h
+    | lost => simp [Flow.failAt] at h
 
 theorem checkBody_snd (v : Variant) (k : KeyId) (cb : CertBody) (w : World) :
     (checkBody v k cb w).2 = w := by
@@ -853,25 +866,55 @@ theorem SatB.updateContacts : SatB A c 2 T updateContacts := by
   split
   · exact .le (.bind (.modAcc _) fun _ _ => .saveAccount) (by omega)
   · exact .register
+  · exact .le (.bind (.modAcc _) fun _ _ => (.failAt _ : SatB A c 0 T _)) (by omega)
   · exact .le (.failAt _) (by omega)
 
-theorem SatB.updateKey : SatB A c 2 T updateKey := by
-  unfold Flow.updateKey
-  refine .le (.bind .getW fun w _ => (?_ : SatB A c 2 T _)) (Nat.le_refl 2)
-  refine .ite ?_ (.le (.failAt _) (by omega))
-  refine .le (.bind (.exchange _ _) fun r _ => (?_ : SatB A c 1 T _)) (Nat.le_refl 2)
+theorem SatB.checkNewKey : SatB A c 1 T checkNewKey := by
+  unfold Flow.checkNewKey
+  refine .le (.bind .getW fun w _ => .bind (.exchange _ _) fun r _ => (?_ : SatB A c 0 T _))
+    (Nat.le_refl 1)
+  split
+  · exact .le (.bind (.modAcc _) fun _ _ => .saveAccount) (by omega)
+  · exact .failAt _
+
+theorem SatB.keyChangeStep (ca : Bool) : SatB A c 2 T (keyChangeStep ca) := by
+  unfold Flow.keyChangeStep
+  refine .le (.bind .getW fun w _ => .bind (.exchange _ _) fun r _ => (?_ : SatB A c 1 T _))
+    (Nat.le_refl 2)
   split
   · exact .le (.bind (.modAcc _) fun _ _ => .saveAccount) (by omega)
   · exact .register
+  · exact .ite .checkNewKey (.le (.failAt _) (by omega))
+  · exact .le (.bind (.modAcc _) fun _ _ => (.failAt _ : SatB A c 0 T _)) (by omega)
   · exact .le (.failAt _) (by omega)
 
-theorem SatB.synchronize (v : Variant) : SatB A c 4 T (synchronize v) := by
+theorem SatB.keyChangeChecked : SatB A c 3 T keyChangeChecked := by
+  unfold Flow.keyChangeChecked
+  refine .le (.bind .getW fun w _ => .bind (.exchange _ _) fun r _ => (?_ : SatB A c 2 T _))
+    (Nat.le_refl 3)
+  split
+  · exact .keyChangeStep _
+  · exact .keyChangeStep _
+  · exact .le .checkNewKey (by omega)
+  · exact .le (.failAt _) (by omega)
+
+/-- One more exchange than before 1fb1c1a: the check, the roll-over, the re-registration. -/
+theorem SatB.updateKey (v : Variant) : SatB A c 3 T (updateKey v) := by
+  unfold Flow.updateKey
+  refine .le (.bind .getW fun w _ => (?_ : SatB A c 3 T _)) (Nat.le_refl 3)
+  refine .ite ?_ (.le (.failAt _) (by omega))
+  split
+  · exact .keyChangeChecked
+  · exact .le (.keyChangeStep _) (by omega)
+  · exact .le (.keyChangeStep _) (by omega)
+
+theorem SatB.synchronize (v : Variant) : SatB A c 5 T (synchronize v) := by
   unfold Flow.synchronize
-  have hk : ∀ p : Prop, ∀ [Decidable p], SatB A c 2 T (if p then Flow.updateKey else Pure.pure ()) :=
-    fun p _ => .ite .updateKey (.le (.pure _) (by omega))
+  have hk : ∀ p : Prop, ∀ [Decidable p], SatB A c 3 T (if p then Flow.updateKey v else Pure.pure ()) :=
+    fun p _ => .ite (.updateKey v) (.le (.pure _) (by omega))
   have hc : ∀ p : Prop, ∀ [Decidable p], SatB A c 2 T (if p then Flow.updateContacts else Pure.pure ()) :=
     fun p _ => .ite .updateContacts (.le (.pure _) (by omega))
-  refine .le (.bind .getW fun w _ => (?_ : SatB A c 4 T _)) (by omega)
+  refine .le (.bind .getW fun w _ => (?_ : SatB A c 5 T _)) (by omega)
   refine .ite (.ite (.ite ?_ ?_) ?_) (.le .register (by omega))
   · exact .le (.bind (hk _) fun _ _ => hc _) (by omega)
   · exact .le (.bind (hc _) fun _ _ => hk _) (by omega)
@@ -973,7 +1016,7 @@ theorem SatB.refreshDirectory : SatB A c 1 T refreshDirectory := by
   · exact .failAt _
 
 theorem SatB.prepareM (v : Variant) (cfg : Cfg) :
-    SatB A c (8 + Gen.DEFAULT_POOL_NB_TRIES + A * (1 + c + Gen.DEFAULT_POOL_NB_TRIES)) T
+    SatB A c (9 + Gen.DEFAULT_POOL_NB_TRIES + A * (1 + c + Gen.DEFAULT_POOL_NB_TRIES)) T
       (prepareM v cfg) := by
   unfold Flow.prepareM
   refine .le (.bind .refreshDirectory fun _ _ => .bind (.synchronize v) fun _ _ =>
@@ -1029,9 +1072,10 @@ theorem SatB.install (v : Variant) (k : KeyId) (isNew : Bool) (x : CertContent) 
   unfold Flow.install
   exact .le (.bind (.ite (.writeKey k) (.pure _)) fun _ _ => .writeCert x) (Nat.le_refl 0)
 
-/-- The bound: `10 + 2·P + A·(1 + c + P)` exchanges, `P` = `DEFAULT_POOL_NB_TRIES`. -/
+/-- The bound: `11 + 2·P + A·(1 + c + P)` exchanges, `P` = `DEFAULT_POOL_NB_TRIES` (one more than
+before 1fb1c1a: the check that precedes a key roll-over). -/
 def attemptBound (A c : Nat) : Nat :=
-  10 + 2 * Gen.DEFAULT_POOL_NB_TRIES + A * (1 + c + Gen.DEFAULT_POOL_NB_TRIES)
+  11 + 2 * Gen.DEFAULT_POOL_NB_TRIES + A * (1 + c + Gen.DEFAULT_POOL_NB_TRIES)
 
 theorem SatB.attemptM (v : Variant) (cfg : Cfg) :
     SatB A c (attemptBound A c) T (attemptM v cfg) := by
@@ -1177,6 +1221,25 @@ def isADNE : ExRes → Bool
   | .acmeErr .accountDoesNotExist => true
   | _ => false
 
+/-- An ACME problem document other than accountDoesNotExist. -/
+def isRefusal : ExRes → Bool
+  | .acmeErr .accountDoesNotExist => false
+  | .acmeErr _ => true
+  | _ => false
+
+theorem isRefusal_notOk {r : ExRes} (h : isRefusal r = true) : isOkRes r = false := by
+  cases r with
+  | ok b => cases h
+  | _ => rfl
+
+theorem isRefusal_notADNE {r : ExRes} (h : isRefusal r = true) : isADNE r = false := by
+  cases r with
+  | acmeErr ty =>
+    cases ty with
+    | accountDoesNotExist => cases h
+    | _ => rfl
+  | _ => rfl
+
 theorem saveAccount_spec (w : World) :
     WriteOut .saveAccount id .saveAccount w (saveAccount w).1 (saveAccount w).2 := by
   unfold saveAccount
@@ -1255,6 +1318,9 @@ theorem register_shape (w : World) :
 
 def contactsAcc (a : Acc) : Acc := { a with contactsInSync := true, caContactsOk := true }
 def keyAcc (a : Acc) : Acc := { a with recKey := a.curKey, caKey := a.curKey }
+/-- GHOST effect of a contact update / roll-over that was processed but not answered. -/
+def contactsLostAcc (a : Acc) : Acc := { a with caContactsOk := true }
+def keyLostAcc (a : Acc) : Acc := { a with caKey := a.curKey }
 
 theorem updateContacts_run (w : World) :
     updateContacts w = match w.exs with
@@ -1264,6 +1330,8 @@ theorem updateContacts_run (w : World) :
         | .ok _ =>
           saveAccount ((w.afterExch .accountUpdate w.acc.curKey r rest).withAcc (contactsAcc w.acc))
         | .acmeErr .accountDoesNotExist => register (w.afterExch .accountUpdate w.acc.curKey r rest)
+        | .lost => (.fail .accountUpdate,
+            (w.afterExch .accountUpdate w.acc.curKey r rest).withAcc (contactsLostAcc w.acc))
         | _ => (.fail .accountUpdate, w.afterExch .accountUpdate w.acc.curKey r rest) := by
   unfold updateContacts
   simp only [bind_run, getW, exchange]
@@ -1273,9 +1341,28 @@ theorem updateContacts_run (w : World) :
     | ok b => rfl
     | acmeErr ty => cases ty <;> rfl
     | otherErr => rfl
+    | lost => rfl
 
-theorem updateKey_run (w : World) :
-    updateKey w = if w.acc.pastKeyKnown = true then
+theorem checkNewKey_run (w : World) :
+    checkNewKey w = match w.exs with
+      | [] => (.stuck, w)
+      | r :: rest =>
+        match r with
+        | .ok _ =>
+          saveAccount ((w.afterExch .accountProbe w.acc.curKey r rest).withAcc (keyAcc w.acc))
+        | _ => (.fail .keyChange, w.afterExch .accountProbe w.acc.curKey r rest) := by
+  unfold checkNewKey
+  simp only [bind_run, getW, exchange]
+  rcases w.exs with _ | ⟨r, rest⟩
+  · rfl
+  · cases r with
+    | ok b => rfl
+    | acmeErr ty => rfl
+    | otherErr => rfl
+    | lost => rfl
+
+theorem keyChangeStep_run (ca : Bool) (w : World) :
+    keyChangeStep ca w =
       match w.exs with
       | [] => (.stuck, w)
       | r :: rest =>
@@ -1283,27 +1370,80 @@ theorem updateKey_run (w : World) :
         | .ok _ =>
           saveAccount ((w.afterExch .keyChange w.acc.recKey r rest).withAcc (keyAcc w.acc))
         | .acmeErr .accountDoesNotExist => register (w.afterExch .keyChange w.acc.recKey r rest)
-        | _ => (.fail .keyChange, w.afterExch .keyChange w.acc.recKey r rest)
+        | .acmeErr _ =>
+          if ca = true then checkNewKey (w.afterExch .keyChange w.acc.recKey r rest)
+          else (.fail .keyChange, w.afterExch .keyChange w.acc.recKey r rest)
+        | .lost => (.fail .keyChange,
+            (w.afterExch .keyChange w.acc.recKey r rest).withAcc (keyLostAcc w.acc))
+        | .otherErr => (.fail .keyChange, w.afterExch .keyChange w.acc.recKey r rest) := by
+  unfold keyChangeStep
+  simp only [bind_run, getW, exchange]
+  rcases w.exs with _ | ⟨r, rest⟩
+  · rfl
+  · cases r with
+    | ok b => rfl
+    | acmeErr ty =>
+      cases ty with
+      | accountDoesNotExist => rfl
+      | sigRefused => cases ca <;> rfl
+      | other => cases ca <;> rfl
+    | otherErr => rfl
+    | lost => rfl
+
+theorem keyChangeChecked_run (w : World) :
+    keyChangeChecked w =
+      match w.exs with
+      | [] => (.stuck, w)
+      | p :: rest =>
+        match p with
+        | .ok _ => keyChangeStep false (w.afterExch .accountProbe w.acc.recKey p rest)
+        | .acmeErr .accountDoesNotExist =>
+          keyChangeStep false (w.afterExch .accountProbe w.acc.recKey p rest)
+        | .acmeErr .sigRefused => checkNewKey (w.afterExch .accountProbe w.acc.recKey p rest)
+        | _ => (.fail .keyChange, w.afterExch .accountProbe w.acc.recKey p rest) := by
+  unfold keyChangeChecked
+  simp only [bind_run, getW, exchange]
+  rcases w.exs with _ | ⟨r, rest⟩
+  · rfl
+  · cases r with
+    | ok b => rfl
+    | acmeErr ty => cases ty <;> rfl
+    | otherErr => rfl
+    | lost => rfl
+
+theorem updateKey_run (v : Variant) (w : World) :
+    updateKey v w = if w.acc.pastKeyKnown = true then
+      (match v.rolloverCheck with
+       | .first => keyChangeChecked w
+       | .afterRefusal => keyChangeStep true w
+       | .none => keyChangeStep false w)
       else (.fail .pastKey, w) := by
   unfold updateKey
   simp only [bind_run, getW]
   by_cases hp : w.acc.pastKeyKnown = true
-  · simp only [hp, if_true, bind_run, exchange]
-    rcases w.exs with _ | ⟨r, rest⟩
-    · rfl
-    · cases r with
-      | ok b => rfl
-      | acmeErr ty => cases ty <;> rfl
-      | otherErr => rfl
+  · simp only [hp, if_true]
+    cases v.rolloverCheck <;> rfl
   · simp only [hp]
     rfl
 
-/-- Shape of a contact update / key roll-over with its re-registration fallback. -/
+/-- Shape of the check after a refused roll-over, once sent: the POST-as-GET of the account signed
+by the current key followed by events that are not exchanges, among them the save whenever it
+returned. -/
+def ProbeShape (cur : KeyId) (es : List Ev) (t : Result) : Prop :=
+  ∃ p rest, es = .exch .accountProbe .kid cur p :: rest ∧ SaveShape rest t ∧
+    (t = .ok → isOkRes p = true)
+
+/-- Shape of a contact update / key roll-over with its re-registration fallback and (roll-over
+only, since 5ce05e3) the check after a refusal. -/
 def UpdShape (k : ReqKind) (signer cur : KeyId) (es : List Ev) (t : Result) : Prop :=
   (es = [] ∧ (t = .stuck ∨ t = .failed .pastKey)) ∨
   ∃ r rest, es = .exch k .kid signer r :: rest ∧
     ((isADNE r = true ∧ RegShape cur rest t) ∨
-     (isADNE r = false ∧ SaveShape rest t ∧ (t = .ok → isOkRes r = true)))
+     (isADNE r = false ∧ SaveShape rest t ∧ (t = .ok → isOkRes r = true)) ∨
+     (k = .keyChange ∧ isRefusal r = true ∧ ProbeShape cur rest t))
+
+/-- No check after a refused roll-over among the events. -/
+def NoProbe (es : List Ev) : Prop := ∀ a s r, Ev.exch .accountProbe a s r ∉ es
 
 theorem updateContacts_shape (w : World) :
     ∃ es, (updateContacts w).2.trace = w.trace ++ es ∧
@@ -1317,51 +1457,219 @@ theorem updateContacts_shape (w : World) :
       obtain ⟨es, he, hs, _, _⟩ := saveAccount_shape
         ((w.afterExch .accountUpdate w.acc.curKey (.ok b) rest).withAcc (contactsAcc w.acc))
       refine ⟨.exch .accountUpdate .kid w.acc.curKey (.ok b) :: es, ?_,
-        .inr ⟨_, es, rfl, .inr ⟨rfl, hs, fun _ => rfl⟩⟩⟩
+        .inr ⟨_, es, rfl, .inr (.inl ⟨rfl, hs, fun _ => rfl⟩)⟩⟩
       rw [he]; simp [World.afterExch, World.withAcc, authOf]
     · obtain ⟨es, he, hs⟩ := register_shape
         (w.afterExch .accountUpdate w.acc.curKey (.acmeErr .accountDoesNotExist) rest)
       refine ⟨.exch .accountUpdate .kid w.acc.curKey (.acmeErr .accountDoesNotExist) :: es, ?_,
         .inr ⟨_, es, rfl, .inl ⟨rfl, hs⟩⟩⟩
       rw [he]; simp [World.afterExch, authOf]
-    · rename_i h1 h2
-      refine ⟨[.exch .accountUpdate .kid w.acc.curKey r], rfl, .inr ⟨r, [], rfl, .inr ⟨?_, ⟨by simp, by simp⟩, by simp⟩⟩⟩
+    · exact ⟨[.exch .accountUpdate .kid w.acc.curKey .lost], rfl,
+        .inr ⟨.lost, [], rfl, .inr (.inl ⟨rfl, ⟨by simp, by simp⟩, by simp⟩)⟩⟩
+    · rename_i h1 h2 h3
+      refine ⟨[.exch .accountUpdate .kid w.acc.curKey r], rfl,
+        .inr ⟨r, [], rfl, .inr (.inl ⟨?_, ⟨by simp, by simp⟩, by simp⟩)⟩⟩
       cases r with
       | ok b => exact absurd rfl (h1 b)
       | acmeErr ty => cases ty with
         | accountDoesNotExist => exact absurd rfl h2
+        | sigRefused => rfl
         | other => rfl
       | otherErr => rfl
+      | lost => rfl
 
-theorem updateKey_shape (w : World) :
-    ∃ es, (updateKey w).2.trace = w.trace ++ es ∧
-      UpdShape .keyChange w.acc.recKey w.acc.curKey es (updateKey w).1.tag := by
+theorem checkNewKey_shape (w : World) :
+    ∃ es, (checkNewKey w).2.trace = w.trace ++ es ∧
+      ((es = [] ∧ (checkNewKey w).1.tag = .stuck) ∨
+       ProbeShape w.acc.curKey es (checkNewKey w).1.tag) := by
+  rw [checkNewKey_run]
+  rcases hx : w.exs with _ | ⟨r, rest⟩
+  · exact ⟨[], by simp, .inl ⟨rfl, rfl⟩⟩
+  · simp only
+    split
+    · rename_i b
+      obtain ⟨es, he, hs, _, _⟩ := saveAccount_shape
+        ((w.afterExch .accountProbe w.acc.curKey (.ok b) rest).withAcc (keyAcc w.acc))
+      refine ⟨.exch .accountProbe .kid w.acc.curKey (.ok b) :: es, ?_,
+        .inr ⟨_, es, rfl, hs, fun _ => rfl⟩⟩
+      rw [he]; simp [World.afterExch, World.withAcc, authOf]
+    · rename_i h1
+      refine ⟨[.exch .accountProbe .kid w.acc.curKey r], rfl,
+        .inr ⟨r, [], rfl, ⟨by simp, by simp⟩, by simp⟩⟩
+
+/-- The roll-over request and what follows; `NoProbe` unless the tree has the check after a refusal
+(5ce05e3) and the first answer is a refusal that triggers it. -/
+theorem keyChangeStep_shape (ca : Bool) (w : World) :
+    ∃ es, (keyChangeStep ca w).2.trace = w.trace ++ es ∧
+      UpdShape .keyChange w.acc.recKey w.acc.curKey es (keyChangeStep ca w).1.tag ∧
+      ((ca = false ∨ (w.exs.head?.map isRefusal) ≠ some true) → NoProbe es) := by
+  rw [keyChangeStep_run]
+  rcases hx : w.exs with _ | ⟨r, rest⟩
+  · exact ⟨[], by simp, .inl ⟨rfl, .inl rfl⟩, fun _ => by simp [NoProbe]⟩
+  · have hfail : ∀ r : ExRes, isADNE r = false → isOkRes r = false →
+        ∃ es, (w.afterExch .keyChange w.acc.recKey r rest).trace = w.trace ++ es ∧
+          UpdShape .keyChange w.acc.recKey w.acc.curKey es (.failed .keyChange) ∧ NoProbe es :=
+      fun r h1 h2 => ⟨[.exch .keyChange .kid w.acc.recKey r], rfl,
+        .inr ⟨r, [], rfl, .inr (.inl ⟨h1, ⟨by simp, by simp⟩, by simp⟩)⟩, by simp [NoProbe]⟩
+    have hsave : ∀ {es : List Ev} {t : Result}, SaveShape es t → NoProbe es :=
+      fun hs a s r hm => hs.1 _ hm
+    simp only
+    split
+    · rename_i b
+      obtain ⟨es, he, hs, _, _⟩ := saveAccount_shape
+        ((w.afterExch .keyChange w.acc.recKey (.ok b) rest).withAcc (keyAcc w.acc))
+      refine ⟨.exch .keyChange .kid w.acc.recKey (.ok b) :: es, ?_,
+        .inr ⟨_, es, rfl, .inr (.inl ⟨rfl, hs, fun _ => rfl⟩)⟩, fun _ => ?_⟩
+      · rw [he]; simp [World.afterExch, World.withAcc, authOf]
+      · intro a s r hm
+        rcases List.mem_cons.mp hm with h | h
+        · cases h
+        · exact hsave hs a s r h
+    · obtain ⟨es, he, hs⟩ := register_shape
+        (w.afterExch .keyChange w.acc.recKey (.acmeErr .accountDoesNotExist) rest)
+      refine ⟨.exch .keyChange .kid w.acc.recKey (.acmeErr .accountDoesNotExist) :: es, ?_,
+        .inr ⟨_, es, rfl, .inl ⟨rfl, hs⟩⟩, fun _ => ?_⟩
+      · rw [he]; simp [World.afterExch, authOf]
+      · intro a s r hm
+        rcases List.mem_cons.mp hm with h | h
+        · cases h
+        · rcases hs with ⟨rfl, _⟩ | ⟨r', rest', rfl, hs', _⟩
+          · cases h
+          · rcases List.mem_cons.mp h with h | h
+            · cases h
+            · exact hsave hs' a s r h
+    · rename_i ty hty
+      have hr : isRefusal (.acmeErr ty) = true := by
+        cases ty with
+        | accountDoesNotExist => exact absurd rfl hty
+        | _ => rfl
+      have hna : isADNE (.acmeErr ty) = false := by
+        cases ty with
+        | accountDoesNotExist => exact absurd rfl hty
+        | _ => rfl
+      split
+      · rename_i hv
+        obtain ⟨es, he, hs⟩ := checkNewKey_shape (w.afterExch .keyChange w.acc.recKey (.acmeErr ty) rest)
+        rcases hs with ⟨rfl, ht⟩ | hs
+        · -- the script ends after the refusal: stuck before the check is sent
+          refine ⟨[.exch .keyChange .kid w.acc.recKey (.acmeErr ty)], ?_,
+            .inr ⟨_, [], rfl, .inr (.inl ⟨hna, ⟨by simp, by rw [ht]; simp⟩, by rw [ht]; simp⟩)⟩,
+            fun _ => by simp [NoProbe]⟩
+          rw [he]; simp [World.afterExch, authOf]
+        · refine ⟨.exch .keyChange .kid w.acc.recKey (.acmeErr ty) :: es, ?_,
+            .inr ⟨_, es, rfl, .inr (.inr ⟨rfl, hr, hs⟩)⟩, fun hn => ?_⟩
+          · rw [he]; simp [World.afterExch, authOf]
+          · rcases hn with hn | hn
+            · rw [hv] at hn; cases hn
+            · simp [hr] at hn
+      · obtain ⟨es, he, hs, hn⟩ := hfail (.acmeErr ty) hna rfl
+        exact ⟨es, he, hs, fun _ => hn⟩
+    · exact ⟨[.exch .keyChange .kid w.acc.recKey .lost], rfl,
+        .inr ⟨.lost, [], rfl, .inr (.inl ⟨rfl, ⟨by simp, by simp⟩, by simp⟩)⟩,
+        fun _ => by simp [NoProbe]⟩
+    · obtain ⟨es, he, hs, hn⟩ := hfail .otherErr rfl rfl
+      exact ⟨es, he, hs, fun _ => hn⟩
+
+/-- Shape of the whole roll-over block `update_account_key`.
+* trees without the first check: an `UpdShape` (roll-over request first);
+* since 1fb1c1a: the check signed by the RECORDED key `rec`, then — answered 2xx or
+  accountDoesNotExist — the roll-over request with its fallback (no further check), or — answered
+  with an error a failed signature verification produces (`sigRefused`) — the check signed by the
+  CURRENT key, or — anything else — nothing. -/
+def KeyShape (rec cur : KeyId) (es : List Ev) (t : Result) : Prop :=
+  UpdShape .keyChange rec cur es t ∨
+  ∃ p rest, es = .exch .accountProbe .kid rec p :: rest ∧
+    ((p = .acmeErr .sigRefused ∧ ((rest = [] ∧ t = .stuck) ∨ ProbeShape cur rest t)) ∨
+     ((isOkRes p = true ∨ isADNE p = true) ∧ UpdShape .keyChange rec cur rest t ∧ NoProbe rest) ∨
+     (rest = [] ∧ t = .failed .keyChange))
+
+/-- **The class of the known finding `rollover-probe-at-deactivated-account`**: a roll-over is due
+and the CA answers the FIRST request of the block — since 1fb1c1a the account query signed by the
+recorded key — with an error a failed signature verification produces (`sigRefused`).  When the CA
+in fact holds the recorded key (a deactivated account), the query signed by the current key that
+follows does not verify. -/
+def rolloverProbeAtDeactivatedAccount (w : World) : Bool :=
+  w.exs.head? == some (.acmeErr .sigRefused)
+
+/-- Whether the roll-over block of tree `v` may send a POST-as-GET signed by the CURRENT key from
+world `w`: working tree — the first answer is of class `sigRefused`; 5ce05e3 — the first answer
+(to the roll-over request) is any refusal; before — never. -/
+def mayAskCur (v : Variant) (w : World) : Bool :=
+  match v.rolloverCheck with
+  | .first => rolloverProbeAtDeactivatedAccount w
+  | .afterRefusal => (w.exs.head?.map isRefusal) == some true
+  | .none => false
+
+/-- Events in which every `accountProbe` is signed by `rec`. -/
+def ProbesBy (rec : KeyId) (es : List Ev) : Prop :=
+  ∀ a s r, Ev.exch .accountProbe a s r ∈ es → s = rec
+
+theorem updateKey_shape (v : Variant) (w : World) :
+    ∃ es, (updateKey v w).2.trace = w.trace ++ es ∧
+      KeyShape w.acc.recKey w.acc.curKey es (updateKey v w).1.tag ∧
+      (v.rolloverCheck ≠ .first →
+        UpdShape .keyChange w.acc.recKey w.acc.curKey es (updateKey v w).1.tag) ∧
+      (mayAskCur v w = false → ProbesBy w.acc.recKey es) := by
+  have hnp : ∀ {es : List Ev} {k : KeyId}, NoProbe es → ProbesBy k es :=
+    fun h a s r hm => absurd hm (h a s r)
   rw [updateKey_run]
   split
-  · rcases hx : w.exs with _ | ⟨r, rest⟩
-    · exact ⟨[], by simp, .inl ⟨rfl, .inl rfl⟩⟩
-    · simp only
-      split
-      · rename_i b
-        obtain ⟨es, he, hs, _, _⟩ := saveAccount_shape
-          ((w.afterExch .keyChange w.acc.recKey (.ok b) rest).withAcc (keyAcc w.acc))
-        refine ⟨.exch .keyChange .kid w.acc.recKey (.ok b) :: es, ?_,
-          .inr ⟨_, es, rfl, .inr ⟨rfl, hs, fun _ => rfl⟩⟩⟩
-        rw [he]; simp [World.afterExch, World.withAcc, authOf]
-      · obtain ⟨es, he, hs⟩ := register_shape
-          (w.afterExch .keyChange w.acc.recKey (.acmeErr .accountDoesNotExist) rest)
-        refine ⟨.exch .keyChange .kid w.acc.recKey (.acmeErr .accountDoesNotExist) :: es, ?_,
-          .inr ⟨_, es, rfl, .inl ⟨rfl, hs⟩⟩⟩
-        rw [he]; simp [World.afterExch, authOf]
-      · rename_i h1 h2
-        refine ⟨[.exch .keyChange .kid w.acc.recKey r], rfl, .inr ⟨r, [], rfl, .inr ⟨?_, ⟨by simp, by simp⟩, by simp⟩⟩⟩
-        cases r with
-        | ok b => exact absurd rfl (h1 b)
-        | acmeErr ty => cases ty with
-          | accountDoesNotExist => exact absurd rfl h2
-          | other => rfl
-        | otherErr => rfl
-  · exact ⟨[], by simp, .inl ⟨rfl, .inr rfl⟩⟩
+  · cases hv : v.rolloverCheck with
+    | none =>
+      obtain ⟨es, he, hs, hn⟩ := keyChangeStep_shape false w
+      exact ⟨es, he, .inl hs, fun _ => hs, fun _ => hnp (hn (.inl rfl))⟩
+    | afterRefusal =>
+      obtain ⟨es, he, hs, hn⟩ := keyChangeStep_shape true w
+      refine ⟨es, he, .inl hs, fun _ => hs, fun h => hnp (hn (.inr ?_))⟩
+      intro hx
+      simp [mayAskCur, hv, hx] at h
+    | first =>
+      simp only
+      rw [keyChangeChecked_run]
+      rcases hx : w.exs with _ | ⟨p, rest⟩
+      · exact ⟨[], by simp, .inl (.inl ⟨rfl, .inl rfl⟩), (fun h => absurd rfl h),
+          (fun _ => by intro a s r hm; cases hm)⟩
+      · have hstep : ∀ p : ExRes, (isOkRes p = true ∨ isADNE p = true) → ∃ es,
+            (keyChangeStep false (w.afterExch .accountProbe w.acc.recKey p rest)).2.trace
+              = w.trace ++ es ∧
+            KeyShape w.acc.recKey w.acc.curKey es
+              (keyChangeStep false (w.afterExch .accountProbe w.acc.recKey p rest)).1.tag ∧
+            ProbesBy w.acc.recKey es := by
+          intro p hp
+          obtain ⟨es, he, hs, hn⟩ := keyChangeStep_shape false
+            (w.afterExch .accountProbe w.acc.recKey p rest)
+          have hn' := hn (.inl rfl)
+          refine ⟨.exch .accountProbe .kid w.acc.recKey p :: es, ?_,
+            .inr ⟨p, es, rfl, .inr (.inl ⟨hp, hs, hn'⟩)⟩, ?_⟩
+          · rw [he]; simp [World.afterExch, authOf]
+          · intro a s r hm
+            rcases List.mem_cons.mp hm with h | h
+            · cases h; rfl
+            · exact absurd h (hn' a s r)
+        simp only
+        split
+        · rename_i b
+          obtain ⟨es, he, hs, hp⟩ := hstep (.ok b) (.inl rfl)
+          exact ⟨es, he, hs, (fun h => absurd rfl h), fun _ => hp⟩
+        · obtain ⟨es, he, hs, hp⟩ := hstep (.acmeErr .accountDoesNotExist) (.inr rfl)
+          exact ⟨es, he, hs, (fun h => absurd rfl h), fun _ => hp⟩
+        · obtain ⟨es, he, hs⟩ := checkNewKey_shape
+            (w.afterExch .accountProbe w.acc.recKey (.acmeErr .sigRefused) rest)
+          refine ⟨.exch .accountProbe .kid w.acc.recKey (.acmeErr .sigRefused) :: es, ?_,
+            .inr ⟨_, es, rfl, .inl ⟨rfl, ?_⟩⟩, (fun h => absurd rfl h), fun h => ?_⟩
+          · rw [he]; simp [World.afterExch, authOf]
+          · rcases hs with ⟨rfl, ht⟩ | hs
+            · exact .inl ⟨rfl, ht⟩
+            · exact .inr hs
+          · simp [mayAskCur, hv, rolloverProbeAtDeactivatedAccount, hx] at h
+        · refine ⟨[.exch .accountProbe .kid w.acc.recKey p], rfl,
+            .inr ⟨p, [], rfl, .inr (.inr ⟨rfl, rfl⟩)⟩, (fun h => absurd rfl h), ?_⟩
+          intro _ a s r hm
+          rcases List.mem_cons.mp hm with h | h
+          · cases h; rfl
+          · cases h
+  · exact ⟨[], by simp, .inl (.inl ⟨rfl, .inr rfl⟩), (fun _ => .inl ⟨rfl, .inr rfl⟩),
+      (fun _ => by intro a s r hm; cases hm)⟩
 
 /-! ### From alphabets to monitors -/
 
@@ -1545,9 +1853,10 @@ theorem UpdShape.regMon {k : ReqKind} {s c : KeyId} {es : List Ev} {t : Result}
     (h : UpdShape k s c es t) (hk : k ≠ .newAccount) (hd : k ≠ .directory) :
     ∀ p, regMon p es = true := by
   intro p
-  rcases h with ⟨rfl, _⟩ | ⟨r, rest, rfl, ⟨ha, hr⟩ | ⟨_, hs, _⟩⟩
+  rcases h with ⟨rfl, _⟩ | ⟨r, rest, rfl, ⟨ha, hr⟩ | ⟨_, hs, _⟩ | ⟨_, _, q, rest', rfl, hs, _⟩⟩
   · rfl
   · simp [Flow.regMon, hk, hd, ha, hr.regMon]
+  · simp [Flow.regMon, hk, hd, regMon_noexch hs.1]
   · simp [Flow.regMon, hk, hd, regMon_noexch hs.1]
 
 theorem regMon_updateContacts : Sat (TR ΦReg) updateContacts :=
@@ -1555,10 +1864,20 @@ theorem regMon_updateContacts : Sat (TR ΦReg) updateContacts :=
     obtain ⟨es, he, hs⟩ := updateContacts_shape w
     exact ⟨es, he, hs.regMon (by simp) (by simp)⟩⟩
 
-theorem regMon_updateKey : Sat (TR ΦReg) updateKey :=
+theorem KeyShape.regMon {s c : KeyId} {es : List Ev} {t : Result} (h : KeyShape s c es t) :
+    ∀ p, regMon p es = true := by
+  intro p
+  rcases h with h | ⟨q, rest, rfl, ⟨_, ⟨rfl, _⟩ | ⟨q', rest', rfl, hs, _⟩⟩ | ⟨_, hu, _⟩ | ⟨rfl, _⟩⟩
+  · exact h.regMon (by simp) (by simp) p
+  · simp [Flow.regMon]
+  · simp [Flow.regMon, regMon_noexch hs.1]
+  · simp [Flow.regMon, hu.regMon (by simp) (by simp)]
+  · simp [Flow.regMon]
+
+theorem regMon_updateKey (v : Variant) : Sat (TR ΦReg) (updateKey v) :=
   ⟨fun w => by
-    obtain ⟨es, he, hs⟩ := updateKey_shape w
-    exact ⟨es, he, hs.regMon (by simp) (by simp)⟩⟩
+    obtain ⟨es, he, hs, _⟩ := updateKey_shape v w
+    exact ⟨es, he, hs.regMon⟩⟩
 
 theorem regMon_of_rest (e : Ev) (h : ARest e) : ΦReg [e] .ok := by
   intro p
@@ -1587,6 +1906,7 @@ theorem newOrder_run (w : World) :
     | ok b => rfl
     | acmeErr ty => cases ty <;> rfl
     | otherErr => rfl
+    | lost => rfl
 
 /-- The newOrder step: a re-registration happens only right after `accountDoesNotExist`. -/
 theorem regMon_newOrder : Sat (TR ΦReg) Flow.newOrder := by
@@ -1684,8 +2004,8 @@ theorem sync_regMon (v : Variant) (w : World) :
     ∃ es, (synchronize v w).2.trace = w.trace ++ es ∧
       regMon (!w.acc.hasUrl || !w.acc.bindingInSync) es = true := by
   have L := ΦReg.tlaw.law
-  have hk : ∀ c : Prop, ∀ [Decidable c], Sat (TR ΦReg) (if c then updateKey else pure ()) := by
-    intro c _; walk [regMon_updateKey] [] L
+  have hk : ∀ c : Prop, ∀ [Decidable c], Sat (TR ΦReg) (if c then updateKey v else pure ()) := by
+    intro c _; walk [regMon_updateKey v] [] L
   have hc : ∀ c : Prop, ∀ [Decidable c], Sat (TR ΦReg) (if c then updateContacts else pure ()) := by
     intro c _; walk [regMon_updateContacts] [] L
   unfold synchronize
@@ -1694,10 +2014,10 @@ theorem sync_regMon (v : Variant) (w : World) :
   · by_cases hb : w.acc.bindingInSync = true
     · simp only [hu, hb, if_true]
       have : Sat (TR ΦReg) (if v.keyFirst = true then
-          ((if (!w.acc.keyInSync) = true then updateKey else pure ()) >>= fun _ =>
+          ((if (!w.acc.keyInSync) = true then updateKey v else pure ()) >>= fun _ =>
             if (!w.acc.contactsInSync) = true then updateContacts else pure ())
           else ((if (!w.acc.contactsInSync) = true then updateContacts else pure ()) >>= fun _ =>
-            if (!w.acc.keyInSync) = true then updateKey else pure ())) := by
+            if (!w.acc.keyInSync) = true then updateKey v else pure ())) := by
         walk [hk, hc] [] L
       obtain ⟨es, he, hs⟩ := this.run w
       exact ⟨es, he, by simpa using hs false⟩
@@ -1728,7 +2048,9 @@ def isAcctKind : ReqKind → Bool
   | _ => false
 
 /-- `pend` = an account request (creation, contact update, roll-over) was answered 2xx and the
-account has not been saved since.  No request may be sent while `pend`. -/
+account has not been saved since.  (The POST-as-GETs of the roll-over block are not account
+requests in this sense: the one signed by the recorded key changes nothing; that the one signed by
+the current key is followed by a save is part of `KeyShape`.)  No request may be sent while `pend`. -/
 def savedMon : Bool → List Ev → Bool
   | _, [] => true
   | pend, .exch k _ _ r :: es => !pend && savedMon (isAcctKind k && isOkRes r) es
@@ -1813,7 +2135,7 @@ theorem RegShape.saved {s : KeyId} {es : List Ev} {t : Result} (h : RegShape s e
 
 theorem UpdShape.saved {k : ReqKind} {s c : KeyId} {es : List Ev} {t : Result}
     (h : UpdShape k s c es t) : ΦSaved es t := by
-  rcases h with ⟨rfl, ht⟩ | ⟨r, rest, rfl, ⟨ha, hr⟩ | ⟨_, hs, _⟩⟩
+  rcases h with ⟨rfl, ht⟩ | ⟨r, rest, rfl, ⟨ha, hr⟩ | ⟨_, hs, _⟩ | ⟨_, hrf, q, rest', rfl, hs, _⟩⟩
   · exact ⟨rfl, fun h => by rcases ht with rfl | rfl <;> simp at h⟩
   · have hno : isOkRes r = false := by
       cases r with
@@ -1823,13 +2145,28 @@ theorem UpdShape.saved {k : ReqKind} {s c : KeyId} {es : List Ev} {t : Result}
     exact ⟨by simp [savedMon, hno, h1], fun ht => by simp [savedState, hno, h2 ht]⟩
   · obtain ⟨h1, h2⟩ := hs.saved (isAcctKind k && isOkRes r)
     exact ⟨by simp [savedMon, h1], fun ht => by simp [savedState, h2 ht]⟩
+  · obtain ⟨h1, h2⟩ := hs.saved (isAcctKind .accountProbe && isOkRes q)
+    have hf : isOkRes r = false := isRefusal_notOk hrf
+    exact ⟨by simp only [savedMon, hf, Bool.and_false, Bool.not_false, Bool.true_and, h1],
+      fun ht => by simp only [savedState, h2 ht]⟩
+
+theorem KeyShape.saved {s c : KeyId} {es : List Ev} {t : Result} (h : KeyShape s c es t) :
+    ΦSaved es t := by
+  rcases h with h | ⟨q, rest, rfl, ⟨_, ⟨rfl, ht⟩ | ⟨q', rest', rfl, hs, _⟩⟩ | ⟨_, hu, _⟩ | ⟨rfl, ht⟩⟩
+  · exact h.saved
+  · exact ⟨by simp [savedMon], fun h => by rw [ht] at h; cases h⟩
+  · obtain ⟨h1, h2⟩ := hs.saved false
+    exact ⟨by simp [savedMon, isAcctKind, h1], fun ht => by simp [savedState, isAcctKind, h2 ht]⟩
+  · obtain ⟨h1, h2⟩ := hu.saved
+    exact ⟨by simpa [savedMon, isAcctKind] using h1, fun ht => by simpa [savedState, isAcctKind] using h2 ht⟩
+  · exact ⟨by simp [savedMon], fun h => by rw [ht] at h; cases h⟩
 
 theorem saved_register : Sat (TR ΦSaved) register :=
   ⟨fun w => by obtain ⟨es, he, hs⟩ := register_shape w; exact ⟨es, he, hs.saved⟩⟩
 theorem saved_updateContacts : Sat (TR ΦSaved) updateContacts :=
   ⟨fun w => by obtain ⟨es, he, hs⟩ := updateContacts_shape w; exact ⟨es, he, hs.saved⟩⟩
-theorem saved_updateKey : Sat (TR ΦSaved) updateKey :=
-  ⟨fun w => by obtain ⟨es, he, hs⟩ := updateKey_shape w; exact ⟨es, he, hs.saved⟩⟩
+theorem saved_updateKey (v : Variant) : Sat (TR ΦSaved) (updateKey v) :=
+  ⟨fun w => by obtain ⟨es, he, hs, _⟩ := updateKey_shape v w; exact ⟨es, he, hs.saved⟩⟩
 
 theorem saved_exchange (k : ReqKind) (s : KeyId) (hk : isAcctKind k = false) :
     Sat (TR ΦSaved) (exchange k s) :=
@@ -1845,7 +2182,7 @@ theorem saved_of_rest (e : Ev) (h : ARest e) : ΦSaved [e] .ok := by
 
 theorem saved_synchronize (v : Variant) : Sat (TR ΦSaved) (synchronize v) := by
   unfold synchronize
-  walk [saved_register, saved_updateContacts, saved_updateKey] [] ΦSaved.tlaw.law
+  walk [saved_register, saved_updateContacts, saved_updateKey v] [] ΦSaved.tlaw.law
 
 theorem saved_newOrder : Sat (TR ΦSaved) Flow.newOrder := by
   unfold Flow.newOrder decodeNewOrder
@@ -1888,6 +2225,12 @@ theorem savedMon_sound {mid post : List Ev} {k k' : ReqKind} {a a' : Auth} {s s'
 
 /-! ### Monitor: every `kid` request is signed by the key the CA holds (C11 `sync_order_current`) -/
 
+/-- The `kid` requests whose 2xx answer means "the CA now holds `cur` for this account": the key
+change itself, and a POST-as-GET of the account made by the roll-over block and signed by `cur`
+(the CA verified that signature). -/
+def setsCur (cur : KeyId) (k : ReqKind) (s : KeyId) (r : ExRes) : Bool :=
+  (k == .keyChange || (k == .accountProbe && s == cur)) && isOkRes r
+
 /-- Replays what the CA holds for the account (`ca`): a `jwk` request answered 2xx makes it hold
 the signer's key; a key change answered 2xx makes it hold the new key `cur`; every `kid` request
 must be signed by the key held at that moment. -/
@@ -1897,8 +2240,21 @@ def heldMon (cur : KeyId) : KeyId → List Ev → Bool
     match a with
     | .none => heldMon cur ca es
     | .jwk => heldMon cur (if isOkRes r then s else ca) es
-    | .kid => (s == ca) && heldMon cur (if k = .keyChange ∧ isOkRes r = true then cur else ca) es
+    | .kid => (s == ca) && heldMon cur (if setsCur cur k s r then cur else ca) es
   | ca, _ :: es => heldMon cur ca es
+
+/-- As `heldMon`, except that a POST-as-GET of the account made by the roll-over block
+(`accountProbe`) may also be signed by `cur` while the CA holds another key: after a refusal the
+client cannot tell which of the two keys the CA holds, and asks. -/
+def heldMonP (cur : KeyId) : KeyId → List Ev → Bool
+  | _, [] => true
+  | ca, .exch k a s r :: es =>
+    match a with
+    | .none => heldMonP cur ca es
+    | .jwk => heldMonP cur (if isOkRes r then s else ca) es
+    | .kid => (s == ca || (k == .accountProbe && s == cur)) &&
+        heldMonP cur (if setsCur cur k s r then cur else ca) es
+  | ca, _ :: es => heldMonP cur ca es
 
 def heldEnd (cur : KeyId) : KeyId → List Ev → KeyId
   | ca, [] => ca
@@ -1906,7 +2262,7 @@ def heldEnd (cur : KeyId) : KeyId → List Ev → KeyId
     match a with
     | .none => heldEnd cur ca es
     | .jwk => heldEnd cur (if isOkRes r then s else ca) es
-    | .kid => heldEnd cur (if k = .keyChange ∧ isOkRes r = true then cur else ca) es
+    | .kid => heldEnd cur (if setsCur cur k s r then cur else ca) es
   | ca, _ :: es => heldEnd cur ca es
 
 theorem heldMon_append (cur : KeyId) (a b : List Ev) :
@@ -1919,6 +2275,16 @@ theorem heldMon_append (cur : KeyId) (a b : List Ev) :
     | exch k au s r => cases au <;> simp [heldMon, heldEnd, ih, Bool.and_assoc]
     | _ => simp [heldMon, heldEnd, ih]
 
+theorem heldMonP_append (cur : KeyId) (a b : List Ev) :
+    ∀ ca, heldMonP cur ca (a ++ b) = (heldMonP cur ca a && heldMonP cur (heldEnd cur ca a) b) := by
+  induction a with
+  | nil => intro ca; simp [heldMonP, heldEnd]
+  | cons e tl ih =>
+    intro ca
+    cases e with
+    | exch k au s r => cases au <;> simp [heldMonP, heldEnd, ih, Bool.and_assoc]
+    | _ => simp [heldMonP, heldEnd, ih]
+
 theorem heldEnd_append (cur : KeyId) (a b : List Ev) :
     ∀ ca, heldEnd cur ca (a ++ b) = heldEnd cur (heldEnd cur ca a) b := by
   induction a with
@@ -1928,6 +2294,54 @@ theorem heldEnd_append (cur : KeyId) (a b : List Ev) :
     cases e with
     | exch k au s r => cases au <;> simp [heldEnd, ih]
     | _ => simp [heldEnd, ih]
+
+/-- The strict monitor implies the one that admits the check. -/
+theorem heldMonP_of_heldMon (cur : KeyId) : ∀ (es : List Ev) (ca : KeyId),
+    heldMon cur ca es = true → heldMonP cur ca es = true := by
+  intro es
+  induction es with
+  | nil => intro _ _; rfl
+  | cons e tl ih =>
+    intro ca h
+    cases e with
+    | exch k au s r =>
+      cases au with
+      | none => exact ih _ h
+      | jwk => exact ih _ h
+      | kid =>
+        simp only [heldMon, Bool.and_eq_true] at h
+        simp only [heldMonP, Bool.and_eq_true, Bool.or_eq_true]
+        exact ⟨.inl h.1, ih _ h.2⟩
+    | _ => exact ih _ h
+
+/-- When no POST-as-GET of the roll-over block is signed by `cur` the two monitors agree. -/
+theorem heldMon_of_heldMonP (cur : KeyId) : ∀ (es : List Ev) (ca : KeyId),
+    (∀ a s r, Ev.exch .accountProbe a s r ∈ es → s ≠ cur) →
+    heldMonP cur ca es = true → heldMon cur ca es = true := by
+  intro es
+  induction es with
+  | nil => intro _ _ _; rfl
+  | cons e tl ih =>
+    intro ca hn h
+    have hn' : ∀ a s r, Ev.exch .accountProbe a s r ∈ tl → s ≠ cur :=
+      fun a s r hm => hn a s r (List.mem_cons_of_mem _ hm)
+    cases e with
+    | exch k au s r =>
+      cases au with
+      | none => exact ih _ hn' h
+      | jwk => exact ih _ hn' h
+      | kid =>
+        simp only [heldMonP, Bool.and_eq_true, Bool.or_eq_true, beq_iff_eq] at h
+        simp only [heldMon, Bool.and_eq_true, beq_iff_eq]
+        refine ⟨?_, ih _ hn' h.2⟩
+        rcases h.1 with h1 | h1
+        · exact h1
+        · exact absurd h1.2 (hn .kid s r (by rw [h1.1]; exact List.mem_cons_self))
+    | _ => exact ih _ hn' h
+
+theorem NoProbe.signers {es : List Ev} (h : NoProbe es) (cur : KeyId) :
+    ∀ a s r, Ev.exch .accountProbe a s r ∈ es → s ≠ cur :=
+  fun a s r hm => absurd hm (h a s r)
 
 theorem held_noexch (cur : KeyId) {es : List Ev} (h : ∀ e ∈ es, NoExch e) (ca : KeyId) :
     heldMon cur ca es = true ∧ heldEnd cur ca es = ca := by
@@ -1948,6 +2362,15 @@ theorem heldMon_sound (cur : KeyId) {pre post : List Ev} {k : ReqKind} {s : KeyI
   simp only [Bool.and_eq_true, heldMon, beq_iff_eq] at h
   exact h.2.1
 
+/-- What `heldMonP` accepting a trace means for each `kid` request in it: signed by the key held,
+or it is a POST-as-GET of the roll-over block signed by the new key. -/
+theorem heldMonP_sound (cur : KeyId) {pre post : List Ev} {k : ReqKind} {s : KeyId} {r : ExRes}
+    (ca : KeyId) (h : heldMonP cur ca (pre ++ .exch k .kid s r :: post) = true) :
+    s = heldEnd cur ca pre ∨ (k = .accountProbe ∧ s = cur) := by
+  rw [heldMonP_append] at h
+  simp only [Bool.and_eq_true, heldMonP, Bool.or_eq_true, beq_iff_eq] at h
+  exact h.2.1
+
 theorem RegShape.held (cur : KeyId) {s : KeyId} {es : List Ev} {t : Result} (h : RegShape s es t)
     (ca : KeyId) : heldMon cur ca es = true ∧ (t = .ok → heldEnd cur ca es = s) := by
   rcases h with ⟨rfl, rfl⟩ | ⟨r, rest, rfl, hs, hr⟩
@@ -1956,23 +2379,121 @@ theorem RegShape.held (cur : KeyId) {s : KeyId} {es : List Ev} {t : Result} (h :
     refine ⟨by simp [heldMon, (hn _).1], fun ht => ?_⟩
     simp [heldEnd, hr ht, (hn _).2]
 
-theorem UpdShape.held {k : ReqKind} {s c : KeyId} {es : List Ev} {t : Result}
+/-- A POST-as-GET signed by the current key and what follows: accepted by the admitting monitor
+whatever the CA holds; if it returned, the CA holds the current key. -/
+theorem ProbeShape.heldP {c : KeyId} {es : List Ev} {t : Result} (h : ProbeShape c es t)
+    (ca : KeyId) : heldMonP c ca es = true ∧ (t = .ok → heldEnd c ca es = c) := by
+  obtain ⟨q, rest, rfl, hs, hok⟩ := h
+  have hn := held_noexch c hs.1
+  refine ⟨by simp [heldMonP, heldMonP_of_heldMon _ _ _ (hn _).1], fun ht => ?_⟩
+  simp [heldEnd, setsCur, hok ht, (hn _).2]
+
+/-- The admitting monitor accepts every roll-over / contact-update block, and a block that
+returned ends with the CA holding the current key. -/
+theorem UpdShape.heldP {k : ReqKind} {s c : KeyId} {es : List Ev} {t : Result}
     (h : UpdShape k s c es t) (hk : k = .keyChange ∨ s = c) :
-    heldMon c s es = true ∧ (t = .ok → heldEnd c s es = c) := by
-  rcases h with ⟨rfl, ht⟩ | ⟨r, rest, rfl, ⟨ha, hr⟩ | ⟨_, hs, hok⟩⟩
+    heldMonP c s es = true ∧ (t = .ok → heldEnd c s es = c) := by
+  rcases h with ⟨rfl, ht⟩ | ⟨r, rest, rfl, ⟨ha, hr⟩ | ⟨_, hs, hok⟩ | ⟨_, hrf, hp⟩⟩
   · exact ⟨rfl, fun h => by rcases ht with rfl | rfl <;> simp at h⟩
   · have hno : isOkRes r = false := by
       cases r with
       | ok b => simp [isADNE] at ha
       | _ => rfl
     obtain ⟨h1, h2⟩ := hr.held c s
-    exact ⟨by simp [heldMon, hno, h1], fun ht => by simp [heldEnd, hno, h2 ht]⟩
+    exact ⟨by simp [heldMonP, setsCur, hno, heldMonP_of_heldMon _ _ _ h1],
+      fun ht => by simp [heldEnd, setsCur, hno, h2 ht]⟩
   · have hn := held_noexch c hs.1
-    refine ⟨by simp [heldMon, (hn _).1], fun ht => ?_⟩
-    simp only [heldEnd, (hn _).2, hok ht, and_true]
+    refine ⟨by simp [heldMonP, heldMonP_of_heldMon _ _ _ (hn _).1], fun ht => ?_⟩
+    simp only [heldEnd, (hn _).2, setsCur, hok ht, Bool.and_true]
     rcases hk with rfl | rfl
     · simp
     · simp
+  · have hf : isOkRes r = false := isRefusal_notOk hrf
+    obtain ⟨h1, h2⟩ := hp.heldP s
+    exact ⟨by simp [heldMonP, setsCur, hf, h1], fun ht => by simp [heldEnd, setsCur, hf, h2 ht]⟩
+
+/-- The strict monitor accepts a block without a POST-as-GET signed by the current key. -/
+theorem UpdShape.held {k : ReqKind} {s c : KeyId} {es : List Ev} {t : Result}
+    (h : UpdShape k s c es t) (hk : k = .keyChange ∨ s = c)
+    (hn : NoProbe es) :
+    heldMon c s es = true ∧ (t = .ok → heldEnd c s es = c) :=
+  ⟨heldMon_of_heldMonP _ _ _ (hn.signers c) (h.heldP hk).1, (h.heldP hk).2⟩
+
+/-- The whole roll-over block, replayed from "the CA holds the recorded key". -/
+theorem KeyShape.heldP {s c : KeyId} {es : List Ev} {t : Result} (h : KeyShape s c es t) :
+    heldMonP c s es = true ∧ (t = .ok → heldEnd c s es = c) := by
+  have hst : ∀ q : ExRes, (if setsCur c .accountProbe s q then c else s) = s := by
+    intro q
+    by_cases hq : setsCur c .accountProbe s q = true
+    · simp only [hq, if_true]
+      simp only [setsCur, Bool.and_eq_true, Bool.or_eq_true, beq_iff_eq] at hq
+      rcases hq.1 with h | h
+      · cases h
+      · exact h.2.symm
+    · simp [hq]
+  rcases h with h | ⟨q, rest, rfl, ⟨_, ⟨rfl, ht⟩ | hp⟩ | ⟨_, hu, _⟩ | ⟨rfl, ht⟩⟩
+  · exact h.heldP (.inl rfl)
+  · exact ⟨by simp [heldMonP], fun h => by rw [ht] at h; cases h⟩
+  · obtain ⟨h1, h2⟩ := hp.heldP s
+    exact ⟨by simp [heldMonP, hst, h1], fun ht => by simp [heldEnd, hst, h2 ht]⟩
+  · obtain ⟨h1, h2⟩ := hu.heldP (.inl rfl)
+    exact ⟨by simp [heldMonP, hst, h1], fun ht => by simp [heldEnd, hst, h2 ht]⟩
+  · exact ⟨by simp [heldMonP], fun h => by rw [ht] at h; cases h⟩
+
+/-- A contact-update block contains no POST-as-GET of the roll-over block. -/
+theorem UpdShape.noProbe_of_accountUpdate {s c : KeyId} {es : List Ev} {t : Result}
+    (h : UpdShape .accountUpdate s c es t) : NoProbe es := by
+  intro a s' r' hm
+  rcases h with ⟨rfl, _⟩ | ⟨r, rest, rfl, ⟨_, hr⟩ | ⟨_, hs, _⟩ | ⟨hk, _⟩⟩
+  · cases hm
+  · rcases List.mem_cons.mp hm with h | h
+    · cases h
+    · rcases hr with ⟨rfl, _⟩ | ⟨r2, rest2, rfl, hs, _⟩
+      · cases h
+      · rcases List.mem_cons.mp h with h | h
+        · cases h
+        · exact hs.1 _ h
+  · rcases List.mem_cons.mp hm with h | h
+    · cases h
+    · exact hs.1 _ h
+  · cases hk
+
+/-- The roll-over block contains no contact update. -/
+theorem KeyShape.no_accountUpdate {s c : KeyId} {es : List Ev} {t : Result}
+    (h : KeyShape s c es t) {a : Auth} {s' : KeyId} {r : ExRes} :
+    Ev.exch .accountUpdate a s' r ∉ es := by
+  intro hm
+  have hu : ∀ {es t}, UpdShape .keyChange s c es t → Ev.exch .accountUpdate a s' r ∈ es → False := by
+    intro es t h hm
+    rcases h with ⟨rfl, _⟩ | ⟨r0, rest, rfl, ⟨_, hr⟩ | ⟨_, hs, _⟩ | ⟨_, _, q, rest', rfl, hs, _⟩⟩
+    · cases hm
+    · rcases List.mem_cons.mp hm with h | h
+      · cases h
+      · rcases hr with ⟨rfl, _⟩ | ⟨r2, rest2, rfl, hs, _⟩
+        · cases h
+        · rcases List.mem_cons.mp h with h | h
+          · cases h
+          · exact hs.1 _ h
+    · rcases List.mem_cons.mp hm with h | h
+      · cases h
+      · exact hs.1 _ h
+    · rcases List.mem_cons.mp hm with h | h
+      · cases h
+      · rcases List.mem_cons.mp h with h | h
+        · cases h
+        · exact hs.1 _ h
+  rcases h with h | ⟨q, rest, rfl, ⟨_, ⟨rfl, _⟩ | ⟨q', rest', rfl, hs, _⟩⟩ | ⟨_, hu', _⟩ | ⟨rfl, _⟩⟩
+  · exact hu h hm
+  · rcases List.mem_cons.mp hm with h | h <;> cases h
+  · rcases List.mem_cons.mp hm with h | h
+    · cases h
+    · rcases List.mem_cons.mp h with h | h
+      · cases h
+      · exact hs.1 _ h
+  · rcases List.mem_cons.mp hm with h | h
+    · cases h
+    · exact hu hu' h
+  · rcases List.mem_cons.mp hm with h | h <;> cases h
 
 /-- Events of the shapes: contact updates are `kid` requests signed by `signer`. -/
 theorem UpdShape.accountUpdate_events {k : ReqKind} {s c : KeyId} {es : List Ev} {t : Result}
@@ -1985,7 +2506,7 @@ theorem UpdShape.accountUpdate_events {k : ReqKind} {s c : KeyId} {es : List Ev}
     · rcases List.mem_cons.mp hm with h | h
       · cases h
       · exact hs.1 _ h
-  rcases h with ⟨rfl, _⟩ | ⟨r0, rest, rfl, ⟨_, hr⟩ | ⟨_, hs, _⟩⟩
+  rcases h with ⟨rfl, _⟩ | ⟨r0, rest, rfl, ⟨_, hr⟩ | ⟨_, hs, _⟩ | ⟨_, _, q, rest', rfl, hs, _⟩⟩
   · cases he
   · rcases List.mem_cons.mp he with h | h
     · cases h; exact ⟨rfl, rfl, rfl⟩
@@ -1993,6 +2514,11 @@ theorem UpdShape.accountUpdate_events {k : ReqKind} {s c : KeyId} {es : List Ev}
   · rcases List.mem_cons.mp he with h | h
     · cases h; exact ⟨rfl, rfl, rfl⟩
     · exact (hs.1 _ h).elim
+  · rcases List.mem_cons.mp he with h | h
+    · cases h; exact ⟨rfl, rfl, rfl⟩
+    · rcases List.mem_cons.mp h with h | h
+      · cases h
+      · exact (hs.1 _ h).elim
 
 /-! ### Account functions that returned: effect on the account record -/
 
@@ -2039,27 +2565,97 @@ theorem updateContacts_val {w w' : World} {u : Unit} (h : updateContacts w = (.v
         by rw [h3]; simp [World.afterExch, World.withAcc, authOf]⟩
     · exact .inr ⟨rest, rfl, h⟩
     · simp at h
+    · simp at h
 
-theorem updateKey_val {w w' : World} {u : Unit} (h : updateKey w = (.val u, w')) :
+theorem checkNewKey_val {w w' : World} {u : Unit} (h : checkNewKey w = (.val u, w')) :
+    ∃ b rest, w.exs = .ok b :: rest ∧ w'.exs = rest ∧ w'.acc = keyAcc w.acc ∧
+      w'.trace = w.trace ++ [.exch .accountProbe .kid w.acc.curKey (.ok b),
+        .hooks .filePre true, .saveAccount, .hooks .filePost true] := by
+  rw [checkNewKey_run] at h
+  rcases hx : w.exs with _ | ⟨r, rest⟩
+  · rw [hx] at h; simp at h
+  · rw [hx] at h
+    simp only at h
+    split at h
+    · rename_i b
+      obtain ⟨h1, h2, h3⟩ := saveAccount_val h
+      exact ⟨b, rest, rfl, by rw [h2]; rfl, by rw [h1]; rfl,
+        by rw [h3]; simp [World.afterExch, World.withAcc, authOf]⟩
+    · simp at h
+
+/-- The roll-over request returned: it was answered 2xx; or it was answered `accountDoesNotExist`
+and the re-registration returned; or (5ce05e3 only) it was REFUSED and the check that followed was
+answered 2xx. -/
+theorem keyChangeStep_val {ca : Bool} {w w' : World} {u : Unit}
+    (h : keyChangeStep ca w = (.val u, w')) :
     (∃ b rest, w.exs = .ok b :: rest ∧ w'.exs = rest ∧ w'.acc = keyAcc w.acc ∧
       w'.trace = w.trace ++ [.exch .keyChange .kid w.acc.recKey (.ok b),
         .hooks .filePre true, .saveAccount, .hooks .filePost true]) ∨
     (∃ rest, w.exs = .acmeErr .accountDoesNotExist :: rest ∧
       register (w.afterExch .keyChange w.acc.recKey (.acmeErr .accountDoesNotExist) rest)
-        = (.val u, w')) := by
+        = (.val u, w')) ∨
+    (ca = true ∧ ∃ r b rest, isRefusal r = true ∧ w.exs = r :: .ok b :: rest ∧
+      w'.exs = rest ∧ w'.acc = keyAcc w.acc ∧
+      w'.trace = w.trace ++ [.exch .keyChange .kid w.acc.recKey r,
+        .exch .accountProbe .kid w.acc.curKey (.ok b),
+        .hooks .filePre true, .saveAccount, .hooks .filePost true]) := by
+  rw [keyChangeStep_run] at h
+  rcases hx : w.exs with _ | ⟨r, rest⟩
+  · rw [hx] at h; simp at h
+  · rw [hx] at h
+    simp only at h
+    split at h
+    · rename_i b
+      obtain ⟨h1, h2, h3⟩ := saveAccount_val h
+      exact .inl ⟨b, rest, rfl, by rw [h2]; rfl, by rw [h1]; rfl,
+        by rw [h3]; simp [World.afterExch, World.withAcc, authOf]⟩
+    · exact .inr (.inl ⟨rest, rfl, h⟩)
+    · rename_i ty hty
+      split at h
+      · rename_i hv
+        obtain ⟨b, rest2, h1, h2, h3, h4⟩ := checkNewKey_val h
+        refine .inr (.inr ⟨hv, .acmeErr ty, b, rest2, ?_, ?_, h2, ?_, ?_⟩)
+        · cases ty with
+          | accountDoesNotExist => exact absurd rfl hty
+          | _ => rfl
+        · simp only [World.afterExch] at h1; rw [h1]
+        · rw [h3]; rfl
+        · rw [h4]; simp [World.afterExch, authOf]
+      · simp at h
+    · simp at h
+    · simp at h
+
+/-- The checked roll-over (1fb1c1a) returned: the first check was answered 2xx or
+accountDoesNotExist and the roll-over request that followed returned; or it was answered with a
+`sigRefused` error and the check signed by the current key was answered 2xx. -/
+theorem keyChangeChecked_val {w w' : World} {u : Unit} (h : keyChangeChecked w = (.val u, w')) :
+    ∃ p rest, w.exs = p :: rest ∧
+      ((p = .acmeErr .sigRefused ∧
+        checkNewKey (w.afterExch .accountProbe w.acc.recKey p rest) = (.val u, w')) ∨
+       ((isOkRes p = true ∨ isADNE p = true) ∧
+        keyChangeStep false (w.afterExch .accountProbe w.acc.recKey p rest) = (.val u, w'))) := by
+  rw [keyChangeChecked_run] at h
+  rcases hx : w.exs with _ | ⟨p, rest⟩
+  · rw [hx] at h; simp at h
+  · rw [hx] at h
+    simp only at h
+    refine ⟨p, rest, rfl, ?_⟩
+    split at h
+    · exact .inr ⟨.inl rfl, h⟩
+    · exact .inr ⟨.inr rfl, h⟩
+    · exact .inl ⟨rfl, h⟩
+    · simp at h
+
+theorem updateKey_val {v : Variant} {w w' : World} {u : Unit} (h : updateKey v w = (.val u, w')) :
+    (v.rolloverCheck = .first ∧ keyChangeChecked w = (.val u, w')) ∨
+    (v.rolloverCheck ≠ .first ∧
+      keyChangeStep (v.rolloverCheck == .afterRefusal) w = (.val u, w')) := by
   rw [updateKey_run] at h
   split at h
-  · rcases hx : w.exs with _ | ⟨r, rest⟩
-    · rw [hx] at h; simp at h
-    · rw [hx] at h
-      simp only at h
-      split at h
-      · rename_i b
-        obtain ⟨h1, h2, h3⟩ := saveAccount_val h
-        exact .inl ⟨b, rest, rfl, by rw [h2]; rfl, by rw [h1]; rfl,
-          by rw [h3]; simp [World.afterExch, World.withAcc, authOf]⟩
-      · exact .inr ⟨rest, rfl, h⟩
-      · simp at h
+  · cases hv : v.rolloverCheck with
+    | first => rw [hv] at h; exact .inl ⟨rfl, h⟩
+    | afterRefusal => rw [hv] at h; exact .inr ⟨by simp, h⟩
+    | none => rw [hv] at h; exact .inr ⟨by simp, h⟩
   · simp at h
 
 /-! ### The synchronisation, current order, URL stored and binding unchanged -/
@@ -2069,33 +2665,35 @@ then — only if it returned — the contact block (or nothing when the contacts
 theorem sync_keyFirst_keyChanged (v : Variant) (hv : v.keyFirst = true) (w : World)
     (hu : w.acc.hasUrl = true) (hb : w.acc.bindingInSync = true) (hk : w.acc.keyInSync = false) :
     ∃ es1 es2 t1, (synchronize v w).2.trace = w.trace ++ (es1 ++ es2) ∧
-      UpdShape .keyChange w.acc.recKey w.acc.curKey es1 t1 ∧
+      KeyShape w.acc.recKey w.acc.curKey es1 t1 ∧
+      (v.rolloverCheck ≠ .first → UpdShape .keyChange w.acc.recKey w.acc.curKey es1 t1) ∧
+      (mayAskCur v w = false → ProbesBy w.acc.recKey es1) ∧
       ((t1 = .ok ∧ ((w.acc.contactsInSync = false ∧
             UpdShape .accountUpdate w.acc.curKey w.acc.curKey es2 (synchronize v w).1.tag) ∨
           (w.acc.contactsInSync = true ∧ es2 = [] ∧ (synchronize v w).1.tag = .ok))) ∨
        (t1 ≠ .ok ∧ es2 = [] ∧ (synchronize v w).1.tag = t1)) := by
-  have hsync : synchronize v w = (updateKey >>= fun _ =>
+  have hsync : synchronize v w = (updateKey v >>= fun _ =>
       if (!w.acc.contactsInSync) = true then updateContacts else pure ()) w := by
     unfold synchronize
     simp only [bind_run, getW, hu, hb, hv, hk, if_true, Bool.not_false]
   rw [hsync]
-  obtain ⟨es1, he1, hs1⟩ := updateKey_shape w
-  rcases bind_cases updateKey (fun _ =>
+  obtain ⟨es1, he1, hs1, hus, hnp⟩ := updateKey_shape v w
+  rcases bind_cases (updateKey v) (fun _ =>
       if (!w.acc.contactsInSync) = true then updateContacts else pure ()) w with
     ⟨u, w1, e1, e2⟩ | ⟨hne, e2, e3⟩
   · rw [e2]
-    rw [e1] at he1 hs1
+    rw [e1] at he1 hs1 hus
     have hcur : w1.acc.curKey = w.acc.curKey := by
-      have := (Frame.updateKey.run w).2.2.1
+      have := ((Frame.updateKey v).run w).2.2.1
       rw [e1] at this; exact this
     cases hc : w.acc.contactsInSync
     · simp only [Bool.not_false, if_true]
       obtain ⟨es2, he2, hs2⟩ := updateContacts_shape w1
       rw [hcur] at hs2
-      exact ⟨es1, es2, .ok, by rw [he2, he1]; simp, hs1, .inl ⟨rfl, .inl ⟨trivial, hs2⟩⟩⟩
+      exact ⟨es1, es2, .ok, by rw [he2, he1]; simp, hs1, hus, hnp, .inl ⟨rfl, .inl ⟨trivial, hs2⟩⟩⟩
     · simp only [Bool.not_true, Bool.false_eq_true, if_false]
-      exact ⟨es1, [], .ok, by simpa [pure_run] using he1, hs1, .inl ⟨rfl, .inr ⟨trivial, rfl, rfl⟩⟩⟩
-  · exact ⟨es1, [], _, by rw [e3, he1]; simp, hs1, .inr ⟨hne, rfl, e2⟩⟩
+      exact ⟨es1, [], .ok, by simpa [pure_run] using he1, hs1, hus, hnp, .inl ⟨rfl, .inr ⟨trivial, rfl, rfl⟩⟩⟩
+  · exact ⟨es1, [], _, by rw [e3, he1]; simp, hs1, hus, hnp, .inr ⟨hne, rfl, e2⟩⟩
 
 /-! ### Effect of the account functions on the record, when they return -/
 
@@ -2129,11 +2727,18 @@ theorem updateContacts_acc {w w' : World} {u : Unit} (h : updateContacts w = (.v
     refine ⟨hc', fun hn => absurd (by rw [h1]; exact List.mem_cons_self) hn, .inr ⟨ho, ex, ?_, ha⟩⟩
     rw [h1]; exact List.mem_cons_of_mem _ hm
 
-theorem updateKey_acc {w w' : World} {u : Unit} (h : updateKey w = (.val u, w')) :
+theorem checkNewKey_acc {w w' : World} {u : Unit} (h : checkNewKey w = (.val u, w')) :
+    Consumed w w' ∧ w'.acc = keyAcc w.acc := by
+  obtain ⟨b, rest, h1, h2, h3, _⟩ := checkNewKey_val h
+  exact ⟨⟨[_], by rw [h1, h2]; rfl⟩, h3⟩
+
+theorem keyChangeStep_acc {ca : Bool} {w w' : World} {u : Unit}
+    (h : keyChangeStep ca w = (.val u, w')) :
     Consumed w w' ∧ ((.acmeErr .accountDoesNotExist ∉ w.exs → w'.acc = keyAcc w.acc) ∧
       (w'.acc = keyAcc w.acc ∨
         ∃ ho ex, .ok (.account ho true ex) ∈ w.exs ∧ w'.acc = regAcc ex w.acc)) := by
-  rcases updateKey_val h with ⟨b, rest, h1, h2, h3, _⟩ | ⟨rest, h1, h2⟩
+  rcases keyChangeStep_val h with ⟨b, rest, h1, h2, h3, _⟩ | ⟨rest, h1, h2⟩ |
+    ⟨_, r, b, rest, _, h1, h2, h3, _⟩
   · exact ⟨⟨[_], by rw [h1, h2]; rfl⟩, fun _ => h3, .inl h3⟩
   · obtain ⟨hc, ho, ex, hm, ha⟩ := register_acc h2
     have hc' : Consumed w w' := by
@@ -2141,6 +2746,24 @@ theorem updateKey_acc {w w' : World} {u : Unit} (h : updateKey w = (.val u, w'))
       exact ⟨_ :: p, by rw [h1]; simp only [List.cons_append]; congr 1⟩
     refine ⟨hc', fun hn => absurd (by rw [h1]; exact List.mem_cons_self) hn, .inr ⟨ho, ex, ?_, ha⟩⟩
     rw [h1]; exact List.mem_cons_of_mem _ hm
+  · exact ⟨⟨[_, _], by rw [h1, h2]; rfl⟩, fun _ => h3, .inl h3⟩
+
+theorem updateKey_acc {v : Variant} {w w' : World} {u : Unit} (h : updateKey v w = (.val u, w')) :
+    Consumed w w' ∧ ((.acmeErr .accountDoesNotExist ∉ w.exs → w'.acc = keyAcc w.acc) ∧
+      (w'.acc = keyAcc w.acc ∨
+        ∃ ho ex, .ok (.account ho true ex) ∈ w.exs ∧ w'.acc = regAcc ex w.acc)) := by
+  rcases updateKey_val h with ⟨_, h⟩ | ⟨_, h⟩
+  · obtain ⟨p, rest, hx, ⟨_, h1⟩ | ⟨_, h1⟩⟩ := keyChangeChecked_val h
+    · obtain ⟨⟨pre, hc⟩, ha⟩ := checkNewKey_acc h1
+      exact ⟨⟨p :: pre, by rw [hx]; simp only [List.cons_append]; congr 1⟩,
+        fun _ => ha, .inl ha⟩
+    · obtain ⟨⟨pre, hc⟩, ha1, ha2⟩ := keyChangeStep_acc h1
+      refine ⟨⟨p :: pre, by rw [hx]; simp only [List.cons_append]; congr 1⟩, fun hn => ?_, ?_⟩
+      · exact ha1 fun hm => hn (by rw [hx]; exact List.mem_cons_of_mem _ hm)
+      · rcases ha2 with ha | ⟨ho, ex, hm, ha⟩
+        · exact .inl ha
+        · exact .inr ⟨ho, ex, by rw [hx]; exact List.mem_cons_of_mem _ hm, ha⟩
+  · exact keyChangeStep_acc h
 
 /-- The four shapes of `synchronize`. -/
 theorem sync_eq_noUrl (v : Variant) (w : World) (hu : w.acc.hasUrl = false) :
@@ -2158,7 +2781,7 @@ theorem sync_eq_binding (v : Variant) (w : World) (hu : w.acc.hasUrl = true)
 
 theorem sync_eq_keyFirst (v : Variant) (w : World) (hu : w.acc.hasUrl = true)
     (hb : w.acc.bindingInSync = true) (hv : v.keyFirst = true) :
-    synchronize v w = ((if (!w.acc.keyInSync) = true then updateKey else pure ()) >>= fun _ =>
+    synchronize v w = ((if (!w.acc.keyInSync) = true then updateKey v else pure ()) >>= fun _ =>
       if (!w.acc.contactsInSync) = true then updateContacts else pure ()) w := by
   unfold synchronize
   simp only [bind_run, getW, hu, hb, hv, if_true]
@@ -2166,7 +2789,7 @@ theorem sync_eq_keyFirst (v : Variant) (w : World) (hu : w.acc.hasUrl = true)
 theorem sync_eq_contactsFirst (v : Variant) (w : World) (hu : w.acc.hasUrl = true)
     (hb : w.acc.bindingInSync = true) (hv : v.keyFirst = false) :
     synchronize v w = ((if (!w.acc.contactsInSync) = true then updateContacts else pure ()) >>= fun _ =>
-      if (!w.acc.keyInSync) = true then updateKey else pure ()) w := by
+      if (!w.acc.keyInSync) = true then updateKey v else pure ()) w := by
   unfold synchronize
   simp only [bind_run, getW, hu, hb, hv, if_true, Bool.false_eq_true, if_false]
 
@@ -2175,8 +2798,8 @@ def StepEff (w w' : World) : Prop :=
   Consumed w w' ∧ (w'.acc = w.acc ∨ w'.acc = keyAcc w.acc ∨ w'.acc = contactsAcc w.acc ∨
     ∃ ho ex, .ok (.account ho true ex) ∈ w.exs ∧ w'.acc = regAcc ex w.acc)
 
-theorem optKey_eff {c : Prop} [Decidable c] {w w' : World} {u : Unit}
-    (h : (if c then updateKey else pure ()) w = (.val u, w')) :
+theorem optKey_eff {v : Variant} {c : Prop} [Decidable c] {w w' : World} {u : Unit}
+    (h : (if c then updateKey v else pure ()) w = (.val u, w')) :
     (¬c ∧ w' = w) ∨ (c ∧ Consumed w w' ∧
       ((.acmeErr .accountDoesNotExist ∉ w.exs → w'.acc = keyAcc w.acc) ∧
        (w'.acc = keyAcc w.acc ∨
@@ -2299,7 +2922,8 @@ theorem afterSync_sat2 {Φ : List Ev → Result → Prop} (T : TLaw Φ) (v : Var
 /-- Events of the directory / account / newOrder part. -/
 def AAcct : Ev → Prop
   | .exch k a _ _ => a = authOf k ∧
-      (k = .directory ∨ k = .newAccount ∨ k = .accountUpdate ∨ k = .keyChange ∨ k = .newOrder)
+      (k = .directory ∨ k = .newAccount ∨ k = .accountUpdate ∨ k = .keyChange ∨ k = .newOrder ∨
+       k = .accountProbe)
   | .hooks ty _ => ty = .filePre ∨ ty = .filePost
   | .saveAccount => True
   | _ => False
@@ -2316,8 +2940,14 @@ theorem AAcct.register : Sat (TR (AllEv AAcct)) register := by
   unfold Flow.register; aw [AAcct.saveAccount]
 theorem AAcct.updateContacts : Sat (TR (AllEv AAcct)) updateContacts := by
   unfold Flow.updateContacts; aw [AAcct.saveAccount, AAcct.register]
-theorem AAcct.updateKey : Sat (TR (AllEv AAcct)) updateKey := by
-  unfold Flow.updateKey; aw [AAcct.saveAccount, AAcct.register]
+theorem AAcct.checkNewKey : Sat (TR (AllEv AAcct)) checkNewKey := by
+  unfold Flow.checkNewKey; aw [AAcct.saveAccount]
+theorem AAcct.keyChangeStep (ca : Bool) : Sat (TR (AllEv AAcct)) (keyChangeStep ca) := by
+  unfold Flow.keyChangeStep; aw [AAcct.saveAccount, AAcct.register, AAcct.checkNewKey]
+theorem AAcct.keyChangeChecked : Sat (TR (AllEv AAcct)) keyChangeChecked := by
+  unfold Flow.keyChangeChecked; aw [AAcct.keyChangeStep, AAcct.checkNewKey]
+theorem AAcct.updateKey (v : Variant) : Sat (TR (AllEv AAcct)) (updateKey v) := by
+  unfold Flow.updateKey; aw [AAcct.keyChangeStep, AAcct.keyChangeChecked]
 theorem AAcct.synchronize (v : Variant) : Sat (TR (AllEv AAcct)) (synchronize v) := by
   unfold Flow.synchronize; aw [AAcct.updateContacts, AAcct.updateKey, AAcct.register]
 theorem AAcct.newOrder : Sat (TR (AllEv AAcct)) newOrder := by
@@ -2471,7 +3101,7 @@ theorem ready_solveChallenges (ty : ChalType) (l : List (ChalType × Nat)) :
 
 theorem ready_attemptM (v : Variant) (cfg : Cfg) : Sat (TR ΦReady) (attemptM v cfg) :=
   attempt_sat2 ΦReady.tlaw v cfg
-    (fun e h => ready_single e (by cases e <;> simp_all [AAcct] ; rename_i k _ _ _; intro c; rcases h.2 with h | h | h | h | h <;> simp [h])
+    (fun e h => ready_single e (by cases e <;> simp_all [AAcct] ; rename_i k _ _ _; intro c; rcases h.2 with h | h | h | h | h | h <;> simp [h])
       (by cases e <;> simp_all [AAcct]; rename_i ty _; intro c; rcases h with h | h <;> simp [h]))
     ready_solveChallenges
     (fun e h => ready_single e h.2.1 h.2.2)
@@ -2593,6 +3223,7 @@ theorem solve_val (ty : ChalType) : ∀ (l : List (ChalType × Nat)) (w w' : Wor
               · rw [readyIds_append, hr, ← h2.1]; rfl
             | acmeErr ty' => simp [failAt] at h
             | otherErr => simp [failAt] at h
+            | lost => simp [failAt] at h
     · simp only [ht] at h
       obtain ⟨hcs, es, he, hr⟩ := ih _ _ _ h
       exact ⟨by rw [hcs]; simp [List.filter, ht], es, he, hr⟩
